@@ -49,6 +49,7 @@ type recorder struct {
 	transforms int // number of Transform calls
 	lastRect   [4]float64
 	paints     []paintEv
+	rects      []paintEv // every Rectangle call with the matrix in effect
 }
 
 func newRecorder() *recorder {
@@ -73,6 +74,7 @@ func (r *recorder) GetTransform() matrix.Transform {
 }
 func (r *recorder) Rectangle(x, y, w, h fl) {
 	r.lastRect = [4]float64{float64(x), float64(y), float64(w), float64(h)}
+	r.rects = append(r.rects, paintEv{ctm: r.cur.ctm, rect: r.lastRect})
 }
 func (r *recorder) SetColorRgba(c parser.RGBA, stroke bool) {
 	if !stroke {
@@ -179,6 +181,7 @@ func svgDoc(transform string) string {
 }
 
 type svgResult struct {
+	rects      []paintEv
 	parseErr   string
 	painted    bool
 	obs        M
@@ -191,6 +194,11 @@ func renderSVG(attr string) svgResult {
 	if attr == "\x00" {
 		src = strings.Replace(src, ` transform="`+attr+`"`, "", 1)
 	}
+	return renderSVGDoc(src)
+}
+
+// renderSVGDoc: svg.Parse + Draw of a whole document on 100x100 (must be called under Guard).
+func renderSVGDoc(src string) svgResult {
 	logger.WarningLogger.SetOutput(io.Discard)
 	img, err := svg.Parse(strings.NewReader(src), "", nil, nil)
 	if err != nil {
@@ -198,7 +206,7 @@ func renderSVG(attr string) svgResult {
 	}
 	rec := newRecorder()
 	img.Draw(rec, svgW, svgH, nil)
-	out := svgResult{transforms: rec.transforms}
+	out := svgResult{transforms: rec.transforms, rects: rec.rects}
 	if p, ok := rec.redPaint(); ok {
 		out.painted = true
 		out.obs = p.ctm
